@@ -16,7 +16,7 @@ import (
 func init() { register("C11", runC11) }
 
 func runC11(c *Check, tier string) {
-	c.Decides = "every route to execution passes node-map construction, graph construction (nil-dependency test, cycle search, output-conflict detection) and the target-constraint check, each stopping on its error; the workspace-escape check is applied to every output kind whose identifier is a filesystem path; label-defining map inserts are guarded by a lookup of the same key whose 'found' branch fails; the test/testonly rule resolves every BuildNode kind; overlap predicates are evaluated for all pairs."
+	c.Decides = "every route to execution passes node-map construction, graph construction (nil-dependency test, cycle search, output-conflict detection) and the target-constraint check, each stopping on its error; the workspace-escape check is applied to every output kind whose identifier is a filesystem path; label-defining map inserts are guarded by a lookup of the same key whose 'found' branch fails; the test/testonly rule resolves every BuildNode kind; overlap predicates are evaluated for all pairs; the cycle search starts from every node and its start loop is never left early with the verdict 'no cycle'."
 	c.NotDec = "correctness of the cycle search and overlap predicates on all inputs, completeness ('every graph free of defects is accepted')."
 	ruleR11a(c)
 	ruleR11b(c)
